@@ -196,7 +196,7 @@ class C17(Scenario):
                    "bare scalars are only used with single-variable expressions"]
     expected_faults = ["memo_interleave"]
     expected_probes = ["memo_repeat_identical", "memo_repeat_equal_copy", "memo_change", "memo_array_batch", "memo_equal_value_other_type", "memo_function_fault", "string_first_scalar",
-                       "string_first_object", "string_first_dict", "wrapper_orders", "wrapper_travelled", "memo_mutated_in_place", "memo_batch_mutated_in_place", "memo_signed_zero", "string_field_named_like_builtin"]
+                       "string_first_object", "string_first_dict", "wrapper_orders", "wrapper_travelled", "memo_mutated_in_place", "memo_batch_mutated_in_place", "memo_signed_zero", "string_field_named_like_builtin", "memo_fields_reordered"]
 
     # ------------------------------------------------------------------ generation
     def generate(self, rng, tier, profile):
@@ -233,7 +233,7 @@ class C17(Scenario):
             for si in range(s.randint(4, 30)):
                 tr = s.randrange(2)
                 if s.chance(0.7):
-                    mode = s.pick(["same", "copy", "retype", "new", "new", "mutate", "mutate", "flipzero"])
+                    mode = s.pick(["same", "copy", "retype", "new", "new", "mutate", "mutate", "flipzero", "reorder"])
                     rec = s.randrange(len(recs)) if (mode == "new" or last is None or last[0] != "row") else last[1]
                     steps.append({"op": "fill", "tree": tr, "rec": rec, "how": mode if (last and last[0] == "row") else "new", "w": s.pick([1.0, 1.0, 0.5, 2.0]),
                                   "actor": "T%d" % tr, "rec2": s.randrange(len(recs)), "fld": s.pick(["x", "y", "x", "s"])})
@@ -445,6 +445,18 @@ class C17(Scenario):
                     datum[st.get("fld", "x")] = w.records[st["rec2"]][st.get("fld", "x")]
                     base = dict(datum)
                     w.bump("probe_memo_mutated_in_place")
+                    chg += 1
+                elif how == "reorder" and last_row is not None and last_row[0] == st["rec"]:
+                    # the same fields written in another order, x and y exchanged: position by position the values are those of
+                    # the previous record, key by key they are not
+                    prev = last_row[1]
+                    rest = [(k_, v_) for k_, v_ in prev.items() if k_ not in ("x", "y")]
+                    if list(prev)[:2] == ["x", "y"]:
+                        datum = dict([("y", prev["x"]), ("x", prev["y"])] + rest)
+                    else:
+                        datum = dict([("x", prev["y"]), ("y", prev["x"])] + rest)
+                    base = dict(datum)
+                    w.bump("probe_memo_fields_reordered")
                     chg += 1
                 elif how == "flipzero" and last_row is not None and last_row[0] == st["rec"]:
                     datum = {k: _flipzero(v) for k, v in last_row[1].items()}
